@@ -27,3 +27,27 @@ Example C12_nonvacuous :
 Proof. vm_compute. reflexivity. Qed.
 
 Print Assumptions C12_holds.
+
+(* The same over every sequence of INVOCATIONS: completed runs with, anywhere in between, invocations that are rejected before
+   anything is executed.  A rejected invocation is not a run: the statement is about the completed ones alone. *)
+Definition C12_invocations_statement (store_after : nat -> list invocation -> fs) : Prop :=
+  forall M vs, 1 <= M -> completed vs <> [] ->
+    let f := store_after M vs in let rs := completed vs in let k := length rs in
+    show f = Shows (norm_logs (rlogs (rec_at rs k))) (rresult (rec_at rs k)) /\
+    (forall n, 1 <= n <= k -> k - n < M ->
+       show_slot f (slot_of_run M n) = Shows (norm_logs (rlogs (rec_at rs n))) (rresult (rec_at rs n))) /\
+    (forall i, slots f i <> None -> 1 <= i <= M).
+
+Theorem C12_invocations_holds : C12_invocations_statement (fun M => invocations M false).
+Proof.
+  intros M vs HM Hne. cbv zeta. rewrite invocations_completed.
+  destruct (C12_history M HM true (completed vs) Hne) as (_ & H2 & H3 & H4). auto.
+Qed.
+
+Example C12_invocations_nonvacuous :
+  let rr n := {| rlogs := [n]; rresult := 10 + n |} in
+  let f := invocations 3 false [Completes (rr 1); Completes (rr 2); Rejected; Completes (rr 3); Completes (rr 4); Rejected] in
+  show f = Shows [4] 14 /\ show_slot f 2 = Shows [2] 12.
+Proof. vm_compute. split; reflexivity. Qed.
+
+Print Assumptions C12_invocations_holds.
